@@ -26,7 +26,7 @@ ASSUMPTIONS = [
     "bundle identifiers whose two scope readings differ are counted and not judged",
     "value-space mapping of DESIGN appendix D",
 ]
-REQUIRED_CLASSES = {"all": ["fmt:json", "fmt:xml", "json:record_array", "xml:subtype_element", "has:bundle"]}
+REQUIRED_CLASSES = {"all": ["fmt:json", "fmt:xml", "json:record_array", "xml:subtype_element", "has:bundle", "read_then_modified_before_writing"]}
 ALL_FORMAL = 44   # (statement, formal key) pairs of the 18 kinds
 
 
@@ -38,8 +38,12 @@ def budget(tier):
 
 
 def strategy(tier):
-    j = st.builds(lambda r, o: dict(r, fmt="json", opts=o), gen.recipe("json"), st.sampled_from(c01.OPTS))
-    x = c02._case().map(lambda c: dict(c, fmt="xml"))
+    from . import c05
+    # some documents are READ (public accessors) and then MODIFIED through every mutator before being written:
+    # the emitted text must reflect the document as it is now, not as it was when something was first computed
+    follow = st.one_of(st.just([]), st.just([]), st.lists(c05.follow_up_op(), min_size=1, max_size=3))
+    j = st.builds(lambda r, o, f: dict(r, fmt="json", opts=o, follow=f), gen.recipe("json"), st.sampled_from(c01.OPTS), follow)
+    x = st.builds(lambda c, f: dict(c, fmt="xml", follow=f), c02._case(), follow)
     return st.one_of(j, x)
 
 
@@ -61,9 +65,27 @@ def check(case, ctx):
         if why:
             ctx.count("not_xml_expressible:" + why)
             return []
+    if case.get("follow"):
+        from . import c05
+        from ..build import apply_op
+        from ..touch import readonly_touch
+        from ..canon import diff_canon as _dc
+        readonly_touch(d, len(case["follow"]))
+        dummy = []
+        for op in case["follow"]:
+            if op[0] in ("readd", "set_time", "asserted_type"):
+                c05._c05_op(b, op, dummy, ctx)
+            else:
+                apply_op(b, op)
+        ctx.count("read_then_modified_before_writing")
+        if fmt == "xml" and why_not_expressible(d):
+            ctx.count("not_xml_expressible:after_follow_up")
+            return []
+        want = b.expected()      # the intents, so that a stale view inside the library cannot hide on both sides
+    else:
+        want = canon(d)
     ctx.count("fmt:" + fmt)
     ctx.nontrivial(c01.classify(b, ctx, case))
-    want = canon(d)
     try:
         if fmt == "json":
             text = d.serialize(format="json", **{k: v for k, v in opts.items() if k in ("indent", "sort_keys", "ensure_ascii")})
